@@ -3,7 +3,8 @@
 (*                                                                                              *)
 (* kind = "parse" (C14) - one call of the real parse_url:                                       *)
 (*   [s  |-> input (code points),                                                              *)
-(*    k  |-> "url" | "lpe" | "<other exception class>",                                        *)
+(*    k  |-> "url" | "lpe" | "<other exception class>" | "did-not-return" (killed by the       *)
+(*           harness's CPU-time watchdog: Totality:DidNotReturn),                               *)
 (*    u  |-> [scheme, auth, host, path, query, fragment |-> code points or NONE, port |-> int], *)
 (*    k2, u2 |-> the same for parse_url(u.url)  (the harness performs the re-parse),           *)
 (*    ref |-> <<>> or the reference reading <<kind, pos, port>> TLC emitted for s (echo)]       *)
